@@ -715,3 +715,378 @@ pub mod imports {
         })
     }
 }
+
+/// Skip recognition (`utils.rs`, `skip.rs`), skip contexts, the visitor's buffer operations
+/// (`push_str`, `format_missing_with_indent`, `push_rewrite`, `push_skipped_with_span`) and the
+/// generated-file test.
+pub mod skip {
+    use rustc_ast::ast;
+    use rustc_span::symbol::kw;
+    use rustc_span::{BytePos, Pos};
+
+    use crate::config::Config;
+    use crate::parse::parser::Parser;
+    use crate::parse::session::ParseSess;
+    use crate::shape::Indent;
+    use crate::skip::{SkipNameContext, is_skip_attr};
+    use crate::spanned::Spanned;
+    use crate::utils::{contains_skip, mk_sp};
+    use crate::visitor::FmtVisitor;
+    use crate::{FormatReport, Input};
+
+    /// One attribute as the skip code sees it.
+    #[derive(Debug, Clone)]
+    pub struct AttrInfo {
+        /// `w:<path>` | `n:<path>` | `l:<path>(<nested>|…)` for `meta() == Some(..)` (`#` = a
+        /// literal), `x:<path>` for a normal attribute with `meta() == None`, `d` for a doc
+        /// comment; path segments joined by `.`, the `{{root}}` segment of `::a` written as the
+        /// empty string.
+        pub enc: String,
+        pub inner: bool,
+        /// `is_skip(&meta)` when `meta()` is `Some`.
+        pub is_skip: Option<bool>,
+        /// `is_skip_attr(segments)` / `is_unknown_rustfmt_attr(segments)` for normal attributes.
+        pub is_skip_attr: Option<bool>,
+        pub unknown_rustfmt: Option<bool>,
+        pub lo: usize,
+        pub hi: usize,
+    }
+
+    #[derive(Debug, Clone)]
+    pub struct AttrsInfo {
+        pub attrs: Vec<AttrInfo>,
+        pub contains_skip: bool,
+        /// `get_skip_names(kind, attrs)` for each requested kind, in the order of the returned
+        /// vector.
+        pub names: Vec<Vec<String>>,
+    }
+
+    #[derive(Debug, Clone)]
+    pub struct ItemInfo {
+        pub attrs: AttrsInfo,
+        /// `item.span()` (attributes included) as offsets into the text.
+        pub lo: usize,
+        pub hi: usize,
+    }
+
+    #[derive(Debug, Clone)]
+    pub struct Parsed {
+        /// the crate's inner attributes
+        pub krate: AttrsInfo,
+        /// the top-level items
+        pub items: Vec<ItemInfo>,
+    }
+
+    fn seg_name(seg: &ast::PathSegment) -> String {
+        if seg.ident.name == kw::PathRoot {
+            String::new()
+        } else {
+            seg.ident.to_string()
+        }
+    }
+
+    fn enc_path(path: &ast::Path) -> String {
+        path.segments
+            .iter()
+            .map(seg_name)
+            .collect::<Vec<_>>()
+            .join(".")
+    }
+
+    fn enc_meta(mi: &ast::MetaItem) -> String {
+        match mi.kind {
+            ast::MetaItemKind::Word => format!("w:{}", enc_path(&mi.path)),
+            ast::MetaItemKind::NameValue(..) => format!("n:{}", enc_path(&mi.path)),
+            ast::MetaItemKind::List(ref l) => {
+                let args: Vec<String> = l
+                    .iter()
+                    .map(|n| match n {
+                        ast::MetaItemInner::MetaItem(m) => enc_meta(m),
+                        ast::MetaItemInner::Lit(..) => "#".to_owned(),
+                    })
+                    .collect();
+                format!("l:{}({})", enc_path(&mi.path), args.join("|"))
+            }
+        }
+    }
+
+    fn attrs_info(
+        attrs: &[ast::Attribute],
+        kinds: &[&str],
+        visitor: &FmtVisitor<'_>,
+        base: usize,
+    ) -> AttrsInfo {
+        let infos = attrs
+            .iter()
+            .map(|a| {
+                let meta = a.meta();
+                let (enc, is_skip_attr_v, unknown) = match &a.kind {
+                    ast::AttrKind::DocComment(..) => ("d".to_owned(), None, None),
+                    ast::AttrKind::Normal(normal) => {
+                        let segs = &normal.item.path.segments;
+                        let enc = match &meta {
+                            Some(m) => enc_meta(m),
+                            None => format!("x:{}", enc_path(&normal.item.path)),
+                        };
+                        (
+                            enc,
+                            Some(is_skip_attr(segs)),
+                            Some(crate::visitor::verif_local::is_unknown_rustfmt_attr(
+                                visitor, segs,
+                            )),
+                        )
+                    }
+                };
+                AttrInfo {
+                    enc,
+                    inner: a.style == ast::AttrStyle::Inner,
+                    is_skip: meta.as_ref().map(crate::utils::verif_local::is_skip_meta),
+                    is_skip_attr: is_skip_attr_v,
+                    unknown_rustfmt: unknown,
+                    lo: a.span.lo().to_usize() - base,
+                    hi: a.span.hi().to_usize() - base,
+                }
+            })
+            .collect();
+        AttrsInfo {
+            attrs: infos,
+            contains_skip: contains_skip(attrs),
+            names: kinds
+                .iter()
+                .map(|k| crate::skip::verif_local::skip_names(k, attrs))
+                .collect(),
+        }
+    }
+
+    fn quiet(config: &Config) -> Config {
+        let mut c = config.clone();
+        c.set().show_parse_errors(false);
+        c
+    }
+
+    /// Parses `src` the way `format_project` does (`Parser::parse_crate` on `Input::Text`) and
+    /// reports the attributes of the crate and of its top-level items. `None` when it does not
+    /// parse.
+    pub fn analyze(src: &str, kinds: &[&str]) -> Option<Parsed> {
+        let config = quiet(&Config::default());
+        rustc_span::create_session_if_not_set_then(config.edition().into(), |_| {
+            let psess = ParseSess::new(&config).ok()?;
+            let krate = Parser::parse_crate(Input::Text(src.to_owned()), &psess).ok()?;
+            let provider = psess.snippet_provider(krate.spans.inner_span);
+            let base = provider.start_pos().to_usize();
+            let visitor = FmtVisitor::from_psess(&psess, &config, &provider, FormatReport::new());
+            Some(Parsed {
+                krate: attrs_info(&krate.attrs, kinds, &visitor, base),
+                items: krate
+                    .items
+                    .iter()
+                    .map(|i| ItemInfo {
+                        attrs: attrs_info(&i.attrs, kinds, &visitor, base),
+                        lo: i.span().lo().to_usize() - base,
+                        hi: i.span().hi().to_usize() - base,
+                    })
+                    .collect(),
+            })
+        })
+    }
+
+    /// The `skip_context` a file starts with (`FmtVisitor::from_psess` then
+    /// `update_with_attrs(&krate.attrs)`, as in `format_file`) and the one of a nested visitor
+    /// (`from_context`) created after `update_with_attrs` of the first item's attributes (as in
+    /// `visit_item`), each queried for `name`: (macros, attributes) twice.
+    pub fn file_ctx(config: &Config, src: &str, name: &str) -> Option<[bool; 4]> {
+        let config = quiet(config);
+        rustc_span::create_session_if_not_set_then(config.edition().into(), |_| {
+            let psess = ParseSess::new(&config).ok()?;
+            let krate = Parser::parse_crate(Input::Text(src.to_owned()), &psess).ok()?;
+            let provider = psess.snippet_provider(krate.spans.inner_span);
+            let mut visitor =
+                FmtVisitor::from_psess(&psess, &config, &provider, FormatReport::new());
+            visitor.skip_context.update_with_attrs(&krate.attrs);
+            let file = (
+                visitor.skip_context.macros.skip(name),
+                visitor.skip_context.attributes.skip(name),
+            );
+            if let Some(item) = krate.items.first() {
+                visitor.skip_context.update_with_attrs(&item.attrs);
+            }
+            let ctx = visitor.get_context();
+            let nested = FmtVisitor::from_context(&ctx);
+            Some([
+                file.0,
+                file.1,
+                nested.skip_context.macros.skip(name),
+                nested.skip_context.attributes.skip(name),
+            ])
+        })
+    }
+
+    #[derive(Debug, Clone)]
+    pub enum CtxOp {
+        SkipAll,
+        Extend(Vec<String>),
+        UpdateAll,
+        UpdateValues(Vec<String>),
+    }
+
+    fn run_ctx(ops: &[CtxOp]) -> SkipNameContext {
+        let mut c = SkipNameContext::default();
+        for op in ops {
+            match op {
+                CtxOp::SkipAll => c.skip_all(),
+                CtxOp::Extend(v) => c.extend(v.iter().cloned()),
+                CtxOp::UpdateAll => c.update(SkipNameContext::All),
+                CtxOp::UpdateValues(v) => {
+                    c.update(SkipNameContext::Values(v.iter().cloned().collect()))
+                }
+            }
+        }
+        c
+    }
+
+    /// `SkipNameContext::default()` after the operations: `None` = `All`, else the sorted values.
+    pub fn name_ctx(ops: &[CtxOp]) -> Option<Vec<String>> {
+        match run_ctx(ops) {
+            SkipNameContext::All => None,
+            SkipNameContext::Values(v) => {
+                let mut v: Vec<String> = v.into_iter().collect();
+                v.sort();
+                Some(v)
+            }
+        }
+    }
+
+    pub fn name_ctx_skip(ops: &[CtxOp], name: &str) -> bool {
+        run_ctx(ops).skip(name)
+    }
+
+    /// `is_generated_file(text, config)` with `generated_marker_line_search_limit = limit`.
+    pub fn is_generated_file(text: &str, limit: usize) -> bool {
+        let mut config = Config::default();
+        config.set().generated_marker_line_search_limit(limit);
+        crate::formatting::verif_local::generated_file(text, &config)
+    }
+
+    /// One operation on a `FmtVisitor`'s buffer; positions are offsets into the text.
+    #[derive(Debug, Clone)]
+    pub enum Op {
+        PushStr(String),
+        /// `format_missing_with_indent(end)`
+        Missing(usize),
+        /// `push_rewrite(span, rewrite)`
+        Rewrite {
+            lo: usize,
+            hi: usize,
+            text: Option<String>,
+        },
+        /// `push_skipped_with_span(attrs of top-level item attrs_of, lo..hi, main_lo..hi)`
+        Skipped {
+            attrs_of: Option<usize>,
+            lo: usize,
+            hi: usize,
+            main_lo: usize,
+        },
+    }
+
+    #[derive(Debug, Clone)]
+    pub struct BufState {
+        pub buffer: String,
+        pub last_pos: usize,
+        pub line_number: usize,
+        pub skipped: Vec<(usize, usize)>,
+        /// what `format_missing_with_indent(lo)` writes at this point, measured on a separate
+        /// visitor that replayed the earlier operations (empty for `PushStr`)
+        pub missing_text: String,
+    }
+
+    fn apply(
+        visitor: &mut FmtVisitor<'_>,
+        krate: &ast::Crate,
+        base: usize,
+        op: &Op,
+        only_missing: bool,
+    ) {
+        let pos = |p: usize| BytePos::from_usize(base + p);
+        match op {
+            Op::PushStr(s) => {
+                if !only_missing {
+                    visitor.push_str(s)
+                }
+            }
+            Op::Missing(e) => visitor.format_missing_with_indent(pos(*e)),
+            Op::Rewrite { lo, hi, text } => {
+                if only_missing {
+                    visitor.format_missing_with_indent(pos(*lo))
+                } else {
+                    visitor.push_rewrite(mk_sp(pos(*lo), pos(*hi)), text.clone())
+                }
+            }
+            Op::Skipped {
+                attrs_of,
+                lo,
+                hi,
+                main_lo,
+            } => {
+                if only_missing {
+                    visitor.format_missing_with_indent(pos(*lo))
+                } else {
+                    let attrs: &[ast::Attribute] = match attrs_of {
+                        Some(i) => &krate.items[*i].attrs,
+                        None => &[],
+                    };
+                    visitor.push_skipped_with_span(
+                        attrs,
+                        mk_sp(pos(*lo), pos(*hi)),
+                        mk_sp(pos(*main_lo), pos(*hi)),
+                    )
+                }
+            }
+        }
+    }
+
+    /// Runs the operations on a fresh visitor over `src` (`last_pos = start`, `block_indent`
+    /// spaces) and returns the state after each one. Panics of the real code propagate.
+    pub fn run_ops(
+        src: &str,
+        config: &Config,
+        start: usize,
+        block_indent: usize,
+        ops: &[Op],
+    ) -> Option<Vec<BufState>> {
+        let config = quiet(config);
+        rustc_span::create_session_if_not_set_then(config.edition().into(), |_| {
+            let psess = ParseSess::new(&config).ok()?;
+            let krate = Parser::parse_crate(Input::Text(src.to_owned()), &psess).ok()?;
+            let provider = psess.snippet_provider(krate.spans.inner_span);
+            let base = provider.start_pos().to_usize();
+            let fresh = || {
+                let mut v = FmtVisitor::from_psess(&psess, &config, &provider, FormatReport::new());
+                v.last_pos = BytePos::from_usize(base + start);
+                v.block_indent = Indent::new(block_indent, 0);
+                v
+            };
+            let mut states = vec![];
+            let mut visitor = fresh();
+            for (i, op) in ops.iter().enumerate() {
+                let missing_text = {
+                    let mut side = fresh();
+                    for earlier in &ops[..i] {
+                        apply(&mut side, &krate, base, earlier, false);
+                    }
+                    let before = side.buffer.len();
+                    apply(&mut side, &krate, base, op, true);
+                    side.buffer[before..].to_owned()
+                };
+                apply(&mut visitor, &krate, base, op, false);
+                states.push(BufState {
+                    buffer: visitor.buffer.clone(),
+                    last_pos: visitor.last_pos.to_usize() - base,
+                    line_number: visitor.line_number,
+                    skipped: visitor.skipped_range.borrow().clone(),
+                    missing_text,
+                });
+            }
+            Some(states)
+        })
+    }
+}
